@@ -40,7 +40,7 @@ from common import REPO, ROOT, Check, InfraError  # noqa: E402
 
 SLEEP_S = 4.0        # scripted sleep: outlasts every timed wait, finite for an untimed one (A4)
 TIMEOUT_S = 0.25     # the timeout handed to timed waits / close(timeout=…)
-SETTLE_S = 0.06      # pause after every call so that worker replies / exits have happened (A1)
+SETTLE_S = 0.08      # pause after every call so that worker replies / exits have happened (A1)
 OP_BOUND_S = 2 * SLEEP_S + 6.0   # no reply from the scenario for this long ⇒ outcome `hang`
 CLOSE_SLACK_S = 3.0  # close() must return within (sleep still owed by scripted sleeps) + this
 MAX_TIMED = 4        # timed calls per scenario (keeps Σ timeouts well below SLEEP_S)
@@ -745,7 +745,7 @@ def run(chk: Check) -> None:
     chk.assumptions = [
         "PARTIAL: liveness, timing and OS-level process death are assumptions of the protocol model (A1–A7 in "
         "Model/VecProto.lean), validated only by fault injection, not derived: a live worker answers before the next "
-        "call (60 ms settle pause), send to an ended process raises BrokenPipeError, recv from it raises EOFError "
+        "call (80 ms settle pause; a failing scenario must fail twice to be reported), send to an ended process raises BrokenPipeError, recv from it raises EOFError "
         "(ConnectionResetError is canonicalised to these), a scripted sleep (4 s) outlasts every timed wait (0.25 s) "
         "and is finite for an untimed one, terminate()/SIGKILL end a process",
         "a real hang can only be observed as 'no answer within 14 s'; the model exhibits the protocol path to it",
@@ -774,8 +774,14 @@ def run(chk: Check) -> None:
                      tags=tags_of(scn, impl))
             if diff is None and not problems:
                 continue
-            ndiff += diff is not None
-            report(chk, pool, scn, res, do_shrink=reported < 3)
+            # timing assumptions (A1, A4) are validated, not guaranteed: a failure must reproduce
+            res2 = evaluate(chk, pool, [scn])[0]
+            if res2[2] is None and not res2[3]:
+                chk.notes.append(f"not reproducible on a second run (timing assumption A1/A4, machine load?): "
+                                 f"{json.dumps(scn)} first run: diff_at={diff} oracle={problems[:1]}")
+                continue
+            ndiff += res2[2] is not None
+            report(chk, pool, scn, res2, do_shrink=reported < 3)
             reported += 1
         chk.suite("vecproto-faults", len(scns), ndiff)
         if chk.tier == "thorough":
